@@ -19,7 +19,7 @@ def gen_one(rng, seed):
     sp["cmds"] = B.gen_cmds(rng, ["pause", "resume", "save", "pause", "resume"], nmax=8, shutdown=rng.random() < 0.8)
     if not any(c[0] == "shutdown" for c in sp["cmds"]):
         sp["max_uptime"] = rng.choice([0.005, 0.02])
-        sp["cmds"] += [["sleep", 0.002], ["resume"], ["sleep", 0.5], ["shutdown", "retry"]]
+        sp["cmds"] += [["sleep", 0.002], ["resume", "retry"], ["sleep", 0.5], ["shutdown", "retry"]]
     if rng.random() < 0.5:
         sp["faults"] = [{"where": rng.choice(WHERE), "k": rng.randint(1, 4)}]
         if rng.random() < 0.2:
